@@ -12,7 +12,7 @@ RULE = ("seeded designs; IterateSATGen asked for |V|+3 sequences under two diffe
         "(design skeleton, policy pair, transport)")
 ASSUMPTIONS = ["reference semantics (sim/refsem.py) reads the documentation correctly",
                "fake peers return only genuine models of the clauses they receive"]
-BUDGET = {"quick": 45, "thorough": 900}
+BUDGET = {"quick": 300, "thorough": 900}
 RUNS = {"quick": 2500, "thorough": 200000}
 TIER_OF = {}
 
